@@ -229,6 +229,11 @@ func (e *Exec) execRange(s *ast.RangeStmt, label string, st *State, ctx *Ctx, k 
 	}
 	k = restoreGhosts(saved, k)
 	info := e.info(ctx)
+	if cl, ok := s.X.(*ast.CompositeLit); ok {
+		if _, isSlice := info.TypeOf(cl).Underlying().(*types.Slice); isSlice && len(cl.Elts) <= 4 && e.unrollLiteralRange(s, cl, label, st, ctx, k) {
+			return
+		}
+	}
 	li := e.loopSpecFor(s, ctx)
 	t := info.TypeOf(s.X)
 	kind := rkOpaque
@@ -657,4 +662,46 @@ func (e *Exec) countingVar1(s *ast.ForStmt, assigned map[*types.Var]bool, info *
 		return iv, up, !up && mentions(cond.X, iv) && !mentions(cond.Y, iv) && stable(cond.Y)
 	}
 	return nil, false, false
+}
+
+// unrollLiteralRange executes `for i, x := range []T{e1, ..., en} { body }` (n <= 4, written as a literal) by running
+// the body once per element, in order: no invariant is needed.
+func (e *Exec) unrollLiteralRange(s *ast.RangeStmt, cl *ast.CompositeLit, label string, st *State, ctx *Ctx, k func(*State)) bool {
+	info := e.info(ctx)
+	for _, el := range cl.Elts {
+		if _, isKV := el.(*ast.KeyValueExpr); isKV {
+			return false
+		}
+	}
+	elemT := info.TypeOf(cl).Underlying().(*types.Slice).Elem()
+	var vals []string
+	for _, el := range cl.Elts {
+		vals = append(vals, e.evalTo(el, elemT, st, ctx))
+	}
+	var runFrom func(i int, st *State)
+	runFrom = func(i int, st *State) {
+		if i >= len(vals) {
+			k(st)
+			return
+		}
+		b := st.clone()
+		b.path = append(b.path, fmt.Sprintf("U%d", i))
+		if id, ok := s.Key.(*ast.Ident); ok && id.Name != "_" {
+			if v, ok := info.ObjectOf(id).(*types.Var); ok {
+				b.env[v] = itoa(i)
+			}
+		}
+		if s.Value != nil {
+			if id, ok := s.Value.(*ast.Ident); ok && id.Name != "_" {
+				if v, ok := info.ObjectOf(id).(*types.Var); ok {
+					b.env[v] = vals[i]
+				}
+			}
+		}
+		next := func(st2 *State) { runFrom(i+1, st2) }
+		lctx := ctx.with(label, func(st2 *State) { k(st2) }, next)
+		e.execBlock(s.Body.List, b, lctx, next)
+	}
+	runFrom(0, st)
+	return true
 }
